@@ -1,5 +1,11 @@
 """per-property claims (source of MANIFEST.json; see tools_gen_manifest.py)"""
 CHECKS = {
+ 'C20': dict(text='static', ref='DESIGN.md 5 C20', note='n', technique='static analysis'),
+ 'C05': dict(text='static', ref='DESIGN.md 5 C05', note='n', technique='static analysis'),
+ 'C04': dict(text='static', ref='DESIGN.md 5 C04', note='n', technique='static analysis'),
+ 'C03': dict(text='static', ref='DESIGN.md 5 C03', note='n', technique='static analysis'),
+ 'C02': dict(text='static', ref='DESIGN.md 5 C02', note='n', technique='static analysis'),
+ 'C01': dict(text='static', ref='DESIGN.md 5 C01', note='n', technique='static analysis'),
  'C09': dict(
    text='Static: Port.put / Port.run path tables are compared region by region with the reference tables written from the '
         'property (accept/drop thresholds, byte accounting, hop stamp). Decides the mechanism, not departure instants.',
@@ -7,4 +13,4 @@ CHECKS = {
    technique='static analysis: symbolic path tables + canonical terms compared with reference decision tables'),
 }
 NOT_APPLICABLE = {p: 'check under construction in this round (see DESIGN.md section 5); not claimed until its rules exist'
-                  for p in ['C01','C02','C03','C04','C05','C06','C07','C08','C10','C11','C12','C13','C14','C15','C16','C17','C18','C19','C20']}
+                  for p in ['C06','C07','C08','C10','C11','C12','C13','C14','C15','C16','C17','C18','C19']}
